@@ -151,8 +151,10 @@ impl FixedCapacityPoolStats {
 /// Free list head for a size class
 #[derive(Debug)]
 struct FreeListHead {
-    /// Head of free list (as offset)
-    head: AtomicU32,
+    /// Head of free list: generation counter (upper 32 bits) + block offset (lower 32 bits).
+    /// The CAS compares the whole word, so a head that was popped and pushed back in
+    /// between (ABA) no longer matches a stale value.
+    head: AtomicU64,
     /// Count of free blocks in this size class
     count: AtomicU32,
 }
@@ -160,9 +162,19 @@ struct FreeListHead {
 impl FreeListHead {
     fn new() -> Self {
         Self {
-            head: AtomicU32::new(LIST_TAIL),
+            head: AtomicU64::new(Self::pack(LIST_TAIL, 0)),
             count: AtomicU32::new(0),
         }
+    }
+
+    #[inline]
+    fn pack(offset: u32, generation: u32) -> u64 {
+        ((generation as u64) << 32) | offset as u64
+    }
+
+    #[inline]
+    fn unpack(packed: u64) -> (u32, u32) {
+        (packed as u32, (packed >> 32) as u32)
     }
 }
 
@@ -459,7 +471,7 @@ impl FixedCapacityMemoryPool {
         }
 
         // Set up free list head
-        free_list.head.store(0, Ordering::Relaxed);
+        free_list.head.store(FreeListHead::pack(0, 0), Ordering::Relaxed);
         free_list.count.store(self.config.total_blocks as u32, Ordering::Relaxed);
 
         Ok(())
@@ -494,7 +506,7 @@ impl FixedCapacityMemoryPool {
         }
 
         // Set up free list head
-        free_list.head.store(0, Ordering::Relaxed);
+        free_list.head.store(FreeListHead::pack(0, 0), Ordering::Relaxed);
         free_list.count.store(self.config.total_blocks as u32, Ordering::Relaxed);
 
         Ok(())
@@ -507,7 +519,8 @@ impl FixedCapacityMemoryPool {
 
         // Try to pop from free list
         loop {
-            let current_head = free_list.head.load(Ordering::Acquire);
+            let current_packed = free_list.head.load(Ordering::Acquire);
+            let (current_head, current_gen) = FreeListHead::unpack(current_packed);
             
             if current_head == LIST_TAIL {
                 // Try to split from larger size class
@@ -533,8 +546,8 @@ impl FixedCapacityMemoryPool {
 
             // Try to update head atomically
             if free_list.head.compare_exchange_weak(
-                current_head,
-                next_offset,
+                current_packed,
+                FreeListHead::pack(next_offset, current_gen.wrapping_add(1)),
                 Ordering::Release,
                 Ordering::Relaxed,
             ).is_ok() {
@@ -555,7 +568,7 @@ impl FixedCapacityMemoryPool {
         for larger_class in (size_class_index + 1)..self.size_classes.len() {
             let free_lists = unsafe { &*self.free_lists.get() };
             let free_list = &free_lists[larger_class];
-            let head = free_list.head.load(Ordering::Acquire);
+            let (head, _) = FreeListHead::unpack(free_list.head.load(Ordering::Acquire));
             
             if head != LIST_TAIL {
                 // Try to allocate from larger class and split
@@ -588,14 +601,15 @@ impl FixedCapacityMemoryPool {
 
         // Add to free list
         loop {
-            let current_head = free_list.head.load(Ordering::Acquire);
+            let current_packed = free_list.head.load(Ordering::Acquire);
+            let (current_head, current_gen) = FreeListHead::unpack(current_packed);
             header.next = current_head;
             #[cfg(zipora_verif)]
             crate::verif_hooks::sched_point("fc.push.linked", offset as u64, current_head as u64);
 
             if free_list.head.compare_exchange_weak(
-                current_head,
-                offset,
+                current_packed,
+                FreeListHead::pack(offset, current_gen.wrapping_add(1)),
                 Ordering::Release,
                 Ordering::Relaxed,
             ).is_ok() {
